@@ -67,6 +67,17 @@ pub fn run_program(ctx: &mut Ctx, mode: Mode, prog: &MpcProg, cfgs: &[Config], t
         ctx.count("compiled_nodes", n_nodes);
         let sends = count_sends(&compiled);
         ctx.count("send_markers", sends);
+        // total size of the values one execution computes; the rare program whose compiled graph
+        // works on hundreds of megabits (a sort of wide rows feeding a matrix product) would take
+        // minutes per execution and is left out (counted)
+        let work_bits = work_bits(&compiled);
+        if ctx.trace {
+            eprintln!("[vx] compiled nodes {} work_bits {}", n_nodes, work_bits);
+        }
+        if work_bits > HEAVY_WORK_BITS {
+            ctx.count("skipped_heavy_program", 1);
+            return;
+        }
         let private = cfg.owners.iter().any(|o| *o != Owner::Public);
         let mut executed = false;
         for d in 0..n_draws {
